@@ -553,6 +553,43 @@ def op_merge(st, op):
     return {"inputs_before": before, "inputs_after": after, "out": out}
 
 
+def op_merge_interleave(st, op):
+    """Several merge() generators alive on one handle, advanced alternately."""
+    db = st.h[op["h"]]
+    gens = []
+    inputs = []
+    for q in op["merges"]:
+        sel = dict(q.get("sel") or {})
+        for k in ("featuretype", "order_by"):
+            if isinstance(sel.get(k), list):
+                sel[k] = tuple(sel[k])
+        feats = list(db.all_features(**sel))
+        inputs.append([fdict(f, with_line=False) for f in feats])
+        crit = _criteria(q.get("criteria"))
+        mkw = {} if crit is None else {"merge_criteria": crit}
+        gens.append(db.merge(feats, **mkw))
+    outs = [[] for _ in gens]
+    done = [False] * len(gens)
+
+    def step(i):
+        if done[i]:
+            return
+        try:
+            x = next(gens[i])
+            d = fdict(x, with_line=False)
+            d["children"] = [c.id for c in x.children]
+            outs[i].append(d)
+        except StopIteration:
+            done[i] = True
+
+    for i in op["schedule"]:
+        step(i % len(gens))
+    for i in range(len(gens)):
+        while not done[i]:
+            step(i)
+    return {"inputs": inputs, "outs": outs}
+
+
 def op_merge_all(st, op):
     db = st.h[op["h"]]
     kw = dict(op.get("kw") or {})
@@ -646,6 +683,7 @@ OPS = {
     "merge": op_merge,
     "interleave": op_interleave,
     "merge_all": op_merge_all,
+    "merge_interleave": op_merge_interleave,
     "dataiter": op_dataiter,
     "inspect": op_inspect,
     "export": op_export,
